@@ -329,6 +329,13 @@ def verify(lst_text, map_text, share_text, trace_text, pbytes, radix, complete, 
                     % (e["line"], e["addr"], be.hex(), near or "nothing")), st
         used.add(id(hit))
         st["matched"] += 1
+        # continuation lines of the entry show the address of their first byte
+        for caddr, before in e.get("cont", []):
+            st["contlines"] = st.get("contlines", 0) + 1
+            want = (e["addr"] + before // hit["gran"]) & 0xffffffffffffffff
+            if before % hit["gran"] == 0 and caddr != want:
+                return ("listing line %d: a continuation line shows address %x for the bytes behind the first %d, they "
+                        "are at %x" % (e["line"], caddr, before, want)), st
         # the byte order of listed words is a property of the target: every line of one CPU uses the same one
         if cpu_of_line is not None and le != be and e["depth"] == 0:
             cpu = cpu_of_line if isinstance(cpu_of_line, str) else cpu_of_line.get(e["line"])
